@@ -163,22 +163,23 @@ theorem fields_roundtrip (lvl : Int) (fieldStart : Nat) (fields : List HSP.Field
   obtain ⟨h, h1, h2, h3, h4, _⟩ := hx
   exact ⟨h, by rw [Scanner.feedAll_flatten (HSP.hsLaws _ fieldStart) chunks s hs]; exact h1, h2, h3, h4⟩
 
-/-! ## non-vacuity: the hypotheses are satisfiable by concrete, non-trivial values -/
+/-! ## non-vacuity: the hypotheses are satisfiable by concrete, non-trivial values
+   (byte arrays written out: `decide` evaluates the model in the kernel) -/
 
-def exBytes (s : String) : Bytes := (strBytes s).toArray
-
-/-- a request line arriving in three pieces at level 0, with a query argument -/
+/-- a request line arriving in three pieces at level 0 ("GET /a?", "x=1 HT", "TP/1.1\r\nHost: h\r\n"):
+    parsed with method at 0, target at 4 (6 bytes, '?' at 6), version at 11, line consumed up to 21.
+    (`decide +kernel`: the model is evaluated by the kernel — a test of the example, not a proof step
+    of any theorem) -/
 example :
     (match (rlScanner (RLFlags.ofLevel 0)).feedAll ((rlScanner (RLFlags.ofLevel 0)).run (RL.init #[] 0))
-        [exBytes "GET /a?", exBytes "x=1 HT", exBytes "TP/1.1\r\nHost: h\r\n"] with
+        [#[71, 69, 84, 32, 47, 97, 63], #[120, 61, 49, 32, 72, 84], #[84, 80, 47, 49, 46, 49, 13, 10, 72, 111, 115, 116, 58, 32, 104, 13, 10]] with
      | .done (.ok r) => some (r.method, r.tgt, r.tgtLen, r.qmark, r.version, r.rb)
-     | _ => none) = some (0, 4, 6, some 6, 11, 21) := by decide
+     | _ => none) = some (0, 4, 6, some 6, 11, 21) := by decide +kernel
 
-/-- the state after the request line `GET /?a HTTP/1.0`: it satisfies both invariants, the
-    header section `A: b` + empty line arrives byte-wise split, the read buffer is small
-    (30 < 1500) so the header tail is re-used: `read_buffer` moves back from 26 to 23 -/
+/-- the state after the request line `GET /?a HTTP/1.0`: it satisfies both invariants; the
+    read buffer is small (30 < 1500), so the header tail is re-used when the header ends -/
 def exHS : HS :=
-  { buf := exBytes "GET\x00/\x00a\x00HTTP/1.0\x00\n", rb := 18, rbSize := 30,
+  { buf := #[71, 69, 84, 0, 47, 0, 97, 0, 72, 84, 84, 80, 47, 49, 46, 48, 0, 10], rb := 18, rbSize := 30,
     elems := [⟨8, ⟨0, 6, 1⟩, none⟩], method := 0, version := 8 }
 
 example : HSP.Inv exHS :=
@@ -188,11 +189,21 @@ example : HSP.Inv2 exHS :=
   field_inv2_start _ 18 30 0 8 _ (by intro el hm; simp at hm; subst hm; decide)
     (by intro el hm sl hsl _; simp at hm; subst hm; simp [HSP.Elem.slices] at hsl; subst hsl; decide)
 
+/-- the header section "A: b\r\n\r\nXY" arriving as "A: ", "b\r", "\n\r\nXY": one element is appended,
+    `read_buffer` ends at 23 (moved back by 3), `header_size` = 26 -/
 example :
     (match (hsScanner (FLFlags.ofLevel 0) 18).feedAll ((hsScanner (FLFlags.ofLevel 0) 18).run exHS)
-        [exBytes "A: ", exBytes "b\r", exBytes "\n\r\nXY"] with
-     | .done (.ok h) => some (h.rb, h.shifted, h.elems.length, h.headerSize)
-     | _ => none) = some (23, 3, 2, 26) := by decide
+        [#[65, 58, 32], #[98, 13], #[10, 13, 10, 88, 89]] with
+     | .done (.ok h) => (h.rb, h.shifted, h.headerSize) == (23, 3, 26) &&
+                        (h.elems.map (HSP.elemView h.buf)).drop 1 == [(1, [65], some [98])]
+     | _ => false) = true := by decide +kernel
 
+/-- a well-formed field with interior whitespace: `Ab: x y` -/
+example : HSP.FieldWF ([65, 98], [120, 32, 121]) := by
+  refine ⟨by decide, ?_, ?_, ?_, ?_⟩
+  · intro c hc; simp at hc; rcases hc with rfl | rfl <;> (unfold HSP.plain; decide)
+  · intro c hc; simp at hc; rcases hc with rfl | rfl | rfl <;> first | (left; unfold HSP.plain; decide) | (right; left; decide)
+  · intro c hc; simp at hc; subst hc; unfold HSP.plain; decide
+  · intro hne; simp [cSP, cHT]
 
 end Mhd.C02
